@@ -88,6 +88,26 @@ def run_e2e(report, n_fonts, rng):
         H + '><g fill="#00ff00"><path d="M10,60 L40,60 L40,90 L10,90 Z"/><g fill="blue"><path d="M50,10 L90,10 L70,45 Z"/></g></g></svg>',
     ]
     directed = [(f, [(build.filename_for((0x1F600 + k,)), t, (0x1F600 + k,)) for k, t in enumerate(inherited)], None, dict()) for f in ("untouchedsvg", "untouchedsvgz", "picosvg")]
+    # two opacity groups with equal content, siblings inside an outer opacity group (stacking a translucent layer twice to
+    # deepen it): they are two nodes, drawn one over the other (F29, fixed: they were merged into one group); next to it
+    # the same pair as top-level layers and a pair that differs in one colour
+    twin = '<g opacity="0.5"><path d="M30,30 L70,30 L70,70 L30,70 Z" fill="#ff0000"/><path d="M50,50 L90,50 L90,90 L50,90 Z" fill="#0000ff"/></g>'
+    twins = [
+        H + '><g opacity="0.9"><path d="M5,5 L25,5 L25,25 L5,25 Z" fill="#00ff00"/>' + twin + twin + "</g></svg>",
+        H + ">" + twin + twin + "</svg>",
+        H + '><g opacity="0.8">' + twin + twin.replace("#0000ff", "#0000cc") + '<path d="M5,70 L25,70 L25,95 Z" fill="#333333"/></g></svg>',
+    ]
+    for f in ("picosvg", "untouchedsvg"):
+        directed.append((f, [(build.filename_for((0x1F610 + k,)), t, (0x1F610 + k,)) for k, t in enumerate(twins)], None, dict()))
+    # sets of the reuse corpus in which sharing of gradients and regrouping of glyphs interact (round 7)
+    from harness.c06 import CORPUS_SETS
+
+    for name, fmts, tol, texts in CORPUS_SETS:
+        if name in ("radials-differing-in-transform-only", "one-gradient-many-shapes", "loner-between-sharers", "second-use-squashed-radial"):
+            directed.append(("picosvg", [(build.filename_for((0x1F630 + k,)), t, (0x1F630 + k,)) for k, t in enumerate(texts)], None, dict(reuse_tolerance=tol)))
+    # a raw source that already carries id="glyph2" (an SVG lifted out of another OT-SVG font) and is given glyph id 2 (F38)
+    own_id = H + '><g id="glyph2"><path d="M10,10 L40,10 L40,40 L10,40 Z" fill="red"/></g><path d="M50,50 L80,50 L80,70 Z" fill="blue"/></svg>'
+    directed.append(("untouchedsvg", [(build.filename_for((0x1F620,)), own_id, (0x1F620,))], None, dict()))
     # the same oracle on fonts built by the real command line, options by flag and by file (zeros included)
     docs, s1 = e2e.gen_sources(rng, n=3)
     directed.append(("picosvg", s1, "flag", dict(upem=1000, ascender=1000, descender=0, width=0)))
@@ -120,7 +140,9 @@ def run_e2e(report, n_fonts, rng):
         report.hist("e2e.user_transform", "yes" if "transform" in over else "no")
         for pe in problems:
             fid = None
-            if pe.get("rounding_only"):
+            if raw and f'id="glyph{pe.get("gid")}"' in (pe.get("source_text") or "") and any("elements with id glyph" in x or "duplicate ids" in x for x in pe["problems"]):
+                fid = "F38-untouched-source-carries-glyph-id"
+            elif pe.get("rounding_only"):
                 fid = "F12-otsvg-use-rounding"
             elif "transform" in over and f6_case(cfg):
                 fid = "F6-otsvg-user-transform"
